@@ -94,3 +94,19 @@ package v1alpha1
 //@        && optNs(result.Status.LastScheduled) == optNs(in.Status.LastScheduled) && optNs(result.Status.LastExecuted) == optNs(in.Status.LastExecuted)
 //@        && (result.Status.LastScheduled == nil) == (in.Status.LastScheduled == nil) && (result.Status.LastExecuted == nil) == (in.Status.LastExecuted == nil)
 //@        && (in.Status.LastScheduled != nil ==> fresh(result.Status.LastScheduled)) && (in.Status.LastExecuted != nil ==> fresh(result.Status.LastExecuted))
+
+// ---- option value formatting (C18) ------------------------------------------------------------------------------------------
+// BoolOptionFormat.Format looks the format up in a package-level table: ASSUMED a deterministic partial function of (format, value)
+//@ pure boolFmtOK(b BoolOptionFormat) bool
+//@ pure boolFmt(b BoolOptionFormat, val bool) string
+//@ extern func BoolOptionFormat.Format
+//@   params b, val
+//@   ensures (result1 == nil) == boolFmtOK(b)
+//@   ensures result1 == nil ==> result0 == boolFmt(b, val)
+//@ pure boolStr(c *BoolOptionConfig, value bool) string = c.Format == BoolOptionFormatCustom ? (value ? c.TrueVal : c.FalseVal) : boolFmt(c.Format, value)
+//@ pure boolStrOK(c *BoolOptionConfig) bool = c.Format == BoolOptionFormatCustom || boolFmtOK(c.Format)
+//@ func BoolOptionConfig.FormatValue
+//@   tags C18
+//@   requires c != nil
+//@   ensures [C18] (result1 == nil) == boolStrOK(c)
+//@   ensures [C18] result1 == nil ==> result0 == boolStr(c, value)
